@@ -40,5 +40,31 @@ Theorem C03_returns_the_unconsumed_head : forall {P} (kind : P -> nat) T f sts n
   (exists consumed, inp = consumed ++ rest) /\ (forall tok, o = OReject tok -> tok = hd_error rest).
 Proof. intros P kind T f. exact (run_rest_suffix kind T f). Qed.
 
+
+(* ---------- for EVERY grammar the generator accepts (Tier B) ----------
+   `generate_full ho digest src = Ok (out, text)` is the model of kiki::generate succeeding on
+   the source text src under any hash iteration orders ho; pt is the driver's view of the table
+   it emitted (Emit/Parser.v ptable_of: rows = chunks of the flat arrays, rule i = reduce
+   function i, terminal/nonterminal i = i-th declaration).  No validator run, no hint: the
+   invariants are proved of the construction itself (Build/GenCorrect.v, PipelineProofs.v). *)
+From Kiki Require Import Emit.Parser Pipeline PipelineProofs.
+
+Section C03_all_grammars.
+  Context {P : Type} (kind : P -> nat).
+  Variables (ho : hash_order) (digest src : str) (out : gen_out) (text : str) (pt : ptable).
+  Hypothesis Hho : perm_hash_order ho.
+  Hypothesis Hgen : generate_full ho digest src = Ok (out, text).
+  Hypothesis Hpt : ptable_of (go_file out) (go_table out) = Some pt.
+
+  Theorem C03_all_reject_position : forall fuel w tok,
+    parse kind pt fuel w = OReject tok ->
+    exists consumed rest,
+      w = consumed ++ rest /\ tok = hd_error rest /\
+      pulls kind pt fuel w = S (length consumed) /\
+      (forall x r z, rest = x :: r -> ~ sentence kind pt (consumed ++ x :: z)).
+  Proof. exact (emitted_parser_reject_position kind ho digest src out text pt Hho Hgen Hpt). Qed.
+End C03_all_grammars.
+
 Print Assumptions C03_reject_position.
 Print Assumptions C03_returns_the_unconsumed_head.
+Print Assumptions C03_all_reject_position.
